@@ -169,6 +169,18 @@ def _int_log_cond_y(rp, st):
     return None, ("ln", c.integrate_log_conditional_y(p, y=y))
 
 
+@binding("IntLogCondYDefer")
+def _int_log_cond_y_defer(rp, st):
+    a = st["a"]
+    return rp.heap[a["i"]].integrate_log_conditional_y(rp.heap[a["j"]]), None      # the callable is kept on the heap
+
+
+@binding("ApplyClosure")
+def _apply_closure(rp, st):
+    a = st["a"]
+    return None, ("ln", rp.heap[a["i"]](stack_q(a["y"])))
+
+
 @binding("Info")
 def _info(rp, st):
     a = st["a"]
